@@ -313,8 +313,8 @@ class SZX(Snapshot):
                         self.pc = get_word(block, 22)
                         self.i = block[24]
                         self.r = block[25]
-                        self.iff1 = block[26]
-                        self.iff2 = block[27]
+                        self.iff1 = int(block[26] > 0)
+                        self.iff2 = int(block[27] > 0)
                         self.im = block[28]
                         self.tstates = get_dword(block, 29)
                         self.memptr = get_word(block, 35)
@@ -537,8 +537,8 @@ class Z80(Snapshot):
         self.iy = get_word(self.header, 23)
         self.ix = get_word(self.header, 25)
         self.border = (self.header[12] // 2) % 8
-        self.iff1 = self.header[27]
-        self.iff2 = self.header[28]
+        self.iff1 = int(self.header[27] > 0)
+        self.iff2 = int(self.header[28] > 0)
         self.im = self.header[29] % 4
         self.tail = data[len(self.header):]
         self.memory = Memory(banks=banks, page=page)
